@@ -5,5 +5,6 @@ CONSTANTS
  MaxLen = 11
  MaxVar = 1
  QKeySlashIsComment = FALSE
+ PinnedFlush = FALSE
 INVARIANTS TypeOK JsonSubset SMAll
 CHECK_DEADLOCK FALSE
